@@ -108,3 +108,13 @@ def anypi(rng, hx: str, p: float = 0.25) -> str:
 
 
 _PREV = None
+
+
+def uplink_overlay_inverse(ov: int) -> int:
+    """the address whose uplink overlay (top 24 bits of G(x)*A(x)) equals ov; the map is linear with unit diagonal"""
+    a = 0
+    for i in range(23, -1, -1):           # overlay bit i = address bit i  XOR  contributions of higher address bits
+        cur = (uplink_overlay(a) >> i) & 1
+        if cur != (ov >> i) & 1:
+            a |= 1 << i
+    return a
